@@ -12,7 +12,7 @@ THEOREMS = ["Slock.C07A.deadline_seconds", "Slock.C07A.deadline_seconds_saturate
             "Slock.C07J.reload_uses_generated_conversion", "Slock.C07J.reload_single_agrees", "Slock.C07J.reload_one_record_per_key",
             "Slock.C07J.replay_level_record_expired_violated", "Slock.C07J.replay_update_record_expired_violated",
             "Slock.C07J.replay_unlock_record_expired_violated", "Slock.C07J.replay_update_within_tolerance_violated",
-            "Slock.C07J.replay_value_of_ended_hold_lost_violated"]
+            "Slock.C07J.replay_value_of_ended_hold_lost_violated", "Slock.C07J.replay_not_admitted_violated"]
 FINISH = {"level": "proof", "assumptions": [
     "the conversions (Model/Aof.lean pushCommandTime, pushAge, writeRemaining, skippedAt, loadRemaining) are hand-written mirrors of AofChannel.Push, Aof.GetAofLockExpriedTime, the filter in LoadAofFile and Aof.GetLockCommandExpriedTime; tied by the aofdeadline differential (real Push -> real writer -> real LoadAofFile -> real GetLockCommandExpriedTime)",
     "engineDeadline mirrors LockManager.AddLock (lock.go 566-577); the harness computes the original deadline with the same formula (the engine's own expiry timing is C06's business)",
